@@ -2035,6 +2035,10 @@ class Interp(object):
                 a0 = list(a0.items)
             if isinstance(a0, (list, tuple)):
                 return list(a0) if name == 'list' else tuple(a0)
+            if isinstance(a0, dict):
+                return list(a0) if name == 'list' else tuple(a0)        # the keys, in insertion order
+            if isinstance(a0, (str, bytes)):
+                return list(a0) if name == 'list' else tuple(a0)
             if not args:
                 return [] if name == 'list' else ()
             if isinstance(a0, Sym):
